@@ -66,7 +66,17 @@ def setup_tree() -> Dict[str, Any]:
             return f"<{name}:db>"
         return type(name, (BaseRenderer,), {"model_renderers": {}, "render_db": classmethod(render_db),
                                             "__module__": "verif.e1"})
-    _state["renderers"] = {"default": None, "tagged": (mk("TagSQL"), mk("TagDBML"))}
+    def mk_bare(name):
+        # a renderer that overrides render()/render_db() itself and has no per-model registry at all
+        def render_db(cls, db):
+            return f"<{name}:db>"
+
+        def render(cls, model):
+            return f"<{name}:{type(model).__name__}>"
+        return type(name, (BaseRenderer,), {"render_db": classmethod(render_db), "render": classmethod(render),
+                                            "__module__": "verif.e1"})
+    _state["renderers"] = {"default": None, "tagged": (mk("TagSQL"), mk("TagDBML")),
+                           "bare": (mk_bare("BareSQL"), mk_bare("BareDBML"))}
     return _state
 
 
@@ -111,8 +121,8 @@ FOCUS_FILES = ("parser.py", "blueprints.py", "database.py")
 def call_parse(text: str, ap: bool, rend: str) -> Any:
     st = _state
     kw: Dict[str, Any] = {"allow_properties": ap}
-    if rend == "tagged":
-        kw["sql_renderer"], kw["dbml_renderer"] = st["renderers"]["tagged"]
+    if rend in ("tagged", "bare"):
+        kw["sql_renderer"], kw["dbml_renderer"] = st["renderers"][rend]
     return st["PyDBML"](text, **kw)
 
 
@@ -303,7 +313,7 @@ def gen_workload(rseed: int, tier: str) -> Dict[str, Any]:
             r = g.random()
             if nres == 0 or r < 0.55:
                 ap = {"F": False, "T": True}.get(ap_mode, g.random() < 0.5)
-                rend = "default" if rend_mode == "default" else g.choice(["default", "tagged"])
+                rend = "default" if rend_mode == "default" else g.choice(["default", "tagged", "bare"])
                 ops.append(["parse", g.choice(pool), ap, rend])
                 nres += 1
             elif r < 0.8:
@@ -433,8 +443,8 @@ def execute(wl: Dict[str, Any], policy: S.Policy, step_cap: int = 20_000_000) ->
             viol("content", "content:differs-from-pristine",
                  {"where": where, "doc": name, "allow_properties": ap, "want": want[2 if full else 1], "got": dig,
                   "got_summary": summary(snap)})
-        if rend == "tagged":
-            tq = tuple(st["renderers"]["tagged"])
+        if rend in ("tagged", "bare"):
+            tq = tuple(st["renderers"][rend])
             if res.sql_renderer is not tq[0] or res.dbml_renderer is not tq[1] or res.allow_properties != ap:
                 viol("content", "content:options-not-applied", {"where": where, "doc": name})
         count("ok:parse-equals-pristine")
